@@ -18,7 +18,8 @@ import iface_codegen
 TIERS = {
     # niface: interfaces per program, ntree: registration trees (C27), batches: programs per run
     "quick": {"niface": 16, "ntree": 12, "batches": 1},
-    "thorough": {"niface": 40, "ntree": 60, "batches": 3},
+    # one program per run: all four properties then share one compilation of generated_thorough.rs
+    "thorough": {"niface": 128, "ntree": 80, "batches": 1},
 }
 
 DEVS = {
